@@ -135,7 +135,7 @@ var (
 		OidTid: 6, OidXid: 4, OidCid: 4, OidMoney: 8, OidTime: 8,
 		OidMacaddr: 6, OidMacaddr8: 8, OidUUID: 16, OidPgLsn: 8,
 		OidPoint: 16, OidLseg: 32, OidBox: 32, OidLine: 24, OidCircle: 24,
-		OidTimeTZ: 12, OidInterval: 16,
+		OidTimeTZ: 12, OidInterval: 16, OidName: 64,
 	}
 )
 
